@@ -169,7 +169,7 @@ func nonTrivialSpec(prop string, s *rt.Spec) bool {
 			multi = true
 		}
 		for _, x := range append(append([]rt.TypeRef{}, t.In...), t.Out...) {
-			if x.K == "U" {
+			if x.K == "U" || x.K == "V" {
 				ext2 = true
 			}
 		}
